@@ -125,9 +125,11 @@ pub enum CliCase {
     Encode { alist: String, punct: Option<String>, input: Vec<u8>, fifo_chunks: Option<Vec<usize>> },
     /// encode with the output on a full device (every write fails with ENOSPC)
     EncodeFull { alist: String, input: Vec<u8> },
+    /// encode in-process under the fault-injecting file layer: one fault at every operation index
+    EncodeSim { alist: String, punct: Option<String>, input: Vec<u8>, seed: u64 },
     BadFile { sub: String, fault: FileFault, alist: String },
     BadArg { args: Vec<String> },
-    Ber { alist: String, args: Vec<String>, workers: usize, strategy: String, clock: String, seeds: [u64; 3], expect_err: bool },
+    Ber { alist: String, args: Vec<String>, workers: usize, strategy: String, clock: String, seeds: [u64; 3], expect_err: bool, fs_plan: crate::fsfault::FsPlan },
 }
 
 fn mn_json(c: &MnConfig) -> Value {
@@ -146,10 +148,11 @@ impl CliCase {
             CliCase::Systematic { alist } => json!({"kind": "systematic", "alist": alist}),
             CliCase::Encode { alist, punct, input, fifo_chunks } => json!({"kind": "encode", "alist": alist, "puncturing": punct, "input": input, "fifo_chunks": fifo_chunks}),
             CliCase::EncodeFull { alist, input } => json!({"kind": "encode-full", "alist": alist, "input": input}),
+            CliCase::EncodeSim { alist, punct, input, seed } => json!({"kind": "encode-simfs", "alist": alist, "puncturing": punct, "input": input, "seed": seed.to_string()}),
             CliCase::BadFile { sub, fault, alist } => json!({"kind": "bad-file", "sub": sub, "fault": format!("{:?}", fault), "alist": alist}),
             CliCase::BadArg { args } => json!({"kind": "bad-arg", "args": args}),
-            CliCase::Ber { alist, args, workers, strategy, clock, seeds, expect_err } => json!({"kind": "ber", "alist": alist, "args": args, "workers": workers, "strategy": strategy, "clock": clock,
-                "seeds": seeds.iter().map(|s| s.to_string()).collect::<Vec<_>>(), "expect_err": expect_err}),
+            CliCase::Ber { alist, args, workers, strategy, clock, seeds, expect_err, fs_plan } => json!({"kind": "ber", "alist": alist, "args": args, "workers": workers, "strategy": strategy, "clock": clock,
+                "seeds": seeds.iter().map(|s| s.to_string()).collect::<Vec<_>>(), "expect_err": expect_err, "fs_plan": fs_plan.to_json()}),
         }
     }
     pub fn from_json(v: &Value) -> Option<CliCase> {
@@ -185,6 +188,12 @@ impl CliCase {
                 fifo_chunks: v["fifo_chunks"].as_array().map(|a| a.iter().map(|x| x.as_u64().unwrap_or(1) as usize).collect()),
             },
             "encode-full" => CliCase::EncodeFull { alist: s("alist")?, input: v["input"].as_array()?.iter().map(|x| x.as_u64().unwrap_or(0) as u8).collect() },
+            "encode-simfs" => CliCase::EncodeSim {
+                alist: s("alist")?,
+                punct: s("puncturing"),
+                input: v["input"].as_array()?.iter().map(|x| x.as_u64().unwrap_or(0) as u8).collect(),
+                seed: s("seed")?.parse().ok()?,
+            },
             "bad-file" => {
                 let f = s("fault")?;
                 let fault = if f == "Missing" {
@@ -215,6 +224,7 @@ impl CliCase {
                     clock: s("clock")?,
                     seeds: [*sd.first()?, *sd.get(1)?, *sd.get(2)?],
                     expect_err: v["expect_err"].as_bool().unwrap_or(false),
+                    fs_plan: crate::fsfault::FsPlan::from_json(&v["fs_plan"])?,
                 }
             }
             _ => return None,
@@ -668,6 +678,7 @@ fn eval_in(case: &CliCase, stats: &mut Counters, bin: &Path, dir: &Path) -> Opti
             // codewords could not be written: success must not be claimed
             expect_error_exit(&out, &what)
         }
+        CliCase::EncodeSim { alist, punct, input, seed } => crate::fsfault::eval_encode_sim(alist, punct, input, *seed, dir, stats),
         CliCase::BadFile { sub, fault, alist } => {
             let name = "bad.alist";
             let p = dir.join(name);
@@ -733,7 +744,8 @@ fn eval_in(case: &CliCase, stats: &mut Counters, bin: &Path, dir: &Path) -> Opti
             stats.inc("invalid argument rejected");
             expect_error_exit(&out, &format!("{:?}", args))
         }
-        CliCase::Ber { alist, args, workers, strategy, clock, seeds, expect_err } => {
+        CliCase::Ber { alist, args, workers, strategy, clock, seeds, expect_err, fs_plan } => {
+            let _ = fs_plan;
             std::fs::write(dir.join("code.alist"), alist).ok()?;
             let casefile = dir.join("case.json");
             std::fs::write(&casefile, case.to_json().to_string()).ok()?;
@@ -777,9 +789,13 @@ pub fn child_cli_ber(casefile: &str) -> ! {
     use clap::Parser;
     use ldpc_toolbox::cli::{Args, Run};
     let v: Value = serde_json::from_str(&std::fs::read_to_string(casefile).unwrap_or_default()).unwrap_or(Value::Null);
-    let Some(CliCase::Ber { args, workers, strategy, clock, seeds, .. }) = CliCase::from_json(&v) else {
+    let Some(CliCase::Ber { args, workers, strategy, clock, seeds, fs_plan, .. }) = CliCase::from_json(&v) else {
         harness_error("bad cli-ber case");
     };
+    // the fault-injecting file layer is installed only for cases that plan file faults, so that
+    // the other cases keep exactly the scheduling points they had
+    let fs = if fs_plan.is_empty() { None } else { Some(fs_plan.install()) };
+    dstsim::simfs::set(fs.clone());
     let cfg = dstsim::Config {
         sched_seed: seeds[0],
         clock_seed: seeds[1],
@@ -821,7 +837,8 @@ pub fn child_cli_ber(casefile: &str) -> ! {
     }
     eprintln!(
         "SIMRESULT {}",
-        json!({"kind": kind, "detail": detail, "steps": out.steps, "leaked": out.leaked, "hash": format!("{:x}", out.event_hash), "tasks": out.tasks.len(), "panicked": panicked, "sim_time_ns": out.clock_ns})
+        json!({"kind": kind, "detail": detail, "steps": out.steps, "leaked": out.leaked, "hash": format!("{:x}", out.event_hash), "tasks": out.tasks.len(), "panicked": panicked, "sim_time_ns": out.clock_ns,
+               "fs_fired": fs.as_ref().map(|f| f.fired()), "fs_hard": fs.as_ref().is_some_and(|f| f.hard_fault_fired())})
     );
     std::process::exit(0)
 }
@@ -942,6 +959,31 @@ fn check_ber_outputs(alist: &str, args: &[String], dir: &Path, out: &ProcOut, st
     stats.add("ber steps", sim["steps"].as_u64().unwrap_or(0));
     stats.add("ber_sim_time_ms", sim["sim_time_ns"].as_u64().unwrap_or(0) / 1_000_000);
     let kind = sim["kind"].as_str().unwrap_or("");
+    if let Some(m) = sim["fs_fired"].as_object() {
+        for (kname, n) in m {
+            stats.add(&format!("faults_fired/simfs (ber): {}", kname), n.as_u64().unwrap_or(0));
+        }
+    }
+    if sim["fs_hard"].as_bool() == Some(true) {
+        // A read of the alist or a write of a result file failed for good (EIO / ENOSPC at a
+        // planned operation index). The run must end (no deadlock, no step bound) and must not
+        // claim success. Whether the failure surfaces as the returned error or as a panic of the
+        // main thread (its report channel lost its receiver) is not judged: the property's
+        // "message rather than a panic" clause is about invalid arguments and files.
+        stats.inc("ber run hit by a hard file fault");
+        return match kind {
+            "err" => {
+                stats.inc("hard file fault in ber surfaced as the returned error");
+                None
+            }
+            "root-panicked" => {
+                stats.inc("hard file fault in ber surfaced as a panic of the main thread (not judged)");
+                None
+            }
+            "ok" => Some(Violation::new("ber-fault-swallowed", format!("ber {:?}: a file operation failed ({}) but the subcommand reported success", args, sim["fs_fired"]))),
+            k => Some(Violation::new(&format!("ber-{}", k), format!("ber {:?} after a file fault ({}): {}: {}", args, sim["fs_fired"], k, sim["detail"].as_str().unwrap_or("")))),
+        };
+    }
     if kind != "ok" {
         return Some(Violation::new(&format!("ber-{}", kind), format!("ber {:?}: {}: {}", args, kind, sim["detail"].as_str().unwrap_or(""))));
     }
@@ -1162,6 +1204,17 @@ fn gen_sampled(seed: u64, i: u64) -> CliCase {
             if g.chance(1, 12) {
                 return CliCase::EncodeFull { alist: m.to_alist(), input };
             }
+            if g.chance(1, 3) {
+                // in-process under the fault-injecting file layer; only valid patterns
+                let ok_pat = match &punct {
+                    None => true,
+                    Some(p) => own_parse_pattern(p).is_ok_and(|v| n % v.len() == 0 && v.iter().any(|&b| b)),
+                };
+                if ok_pat {
+                    let input = if input.len() > 20_000 { input[..20_000 - (g.below(7) as usize)].to_vec() } else { input };
+                    return CliCase::EncodeSim { alist: m.to_alist(), punct, input, seed: g.next() };
+                }
+            }
             let fifo_chunks = if g.chance(1, 3) { Some((0..4).map(|_| 1 + g.below(k as u64 + 2) as usize).collect()) } else { None };
             CliCase::Encode { alist: m.to_alist(), punct, input, fifo_chunks }
         }
@@ -1285,7 +1338,40 @@ fn gen_ber(g: &mut Stream) -> CliCase {
         args.extend(["--bch-max-errors".to_string(), "1".to_string(), "--output-file-ldpc".to_string(), "out_ldpc.txt".to_string()]);
     }
     args.push("code.alist".into());
+    // file faults through the seam (only on otherwise fault-free cases): transparent ones (EINTR,
+    // short transfers: nothing may change) or one hard fault at a drawn operation index
+    let mut fs_plan = crate::fsfault::FsPlan::default();
+    if fault == 0 && g.chance(2, 5) {
+        use dstsim::simfs::{Fault, OpKind, Planned};
+        let outfile = if args.iter().any(|a| a == "out_ldpc.txt") && g.chance(1, 3) { "out_ldpc.txt" } else { "out.txt" };
+        match g.below(5) {
+            0 => {
+                fs_plan.write_chunks.push((outfile.into(), (0..3).map(|_| 1 + g.below(9) as usize).collect()));
+                fs_plan.read_chunks.push(("code.alist".into(), vec![1 + g.below(7) as usize]));
+            }
+            1 => {
+                for _ in 0..1 + g.below(4) {
+                    fs_plan.faults.push(Planned { file: outfile.into(), kind: OpKind::Write, index: g.below(200), fault: Fault::Interrupted, sticky: false });
+                }
+                fs_plan.faults.push(Planned { file: "code.alist".into(), kind: OpKind::Read, index: g.below(3), fault: Fault::Interrupted, sticky: false });
+            }
+            2 => fs_plan.faults.push(Planned { file: "code.alist".into(), kind: OpKind::Read, index: g.below(2), fault: Fault::Io, sticky: false }),
+            _ => fs_plan.faults.push(Planned {
+                file: outfile.into(),
+                kind: OpKind::Write,
+                // the header block is ~60 write calls, each result line ~25
+                index: match g.below(3) {
+                    0 => g.below(60),
+                    1 => 60 + g.below(80),
+                    _ => g.below(400),
+                },
+                fault: if g.chance(3, 4) { Fault::NoSpace } else { Fault::Io },
+                sticky: g.chance(1, 2),
+            }),
+        }
+    }
     CliCase::Ber {
+        fs_plan,
         alist: m.to_alist(),
         args,
         workers: *g.pick(&[1usize, 1, 1, 2, 2, 3, 4]),
@@ -1348,6 +1434,7 @@ fn case_label(c: &CliCase) -> &'static str {
         CliCase::Systematic { .. } => "systematic",
         CliCase::Encode { .. } => "encode",
         CliCase::EncodeFull { .. } => "encode",
+        CliCase::EncodeSim { .. } => "encode",
         CliCase::BadFile { .. } => "file-fault",
         CliCase::BadArg { .. } => "bad-arg",
         CliCase::Ber { .. } => "ber",
@@ -1370,6 +1457,7 @@ pub fn main(opts: &Opts) -> ! {
         for len in 0..=3 * 4 + 2 {
             let input: Vec<u8> = (0..len).map(|_| g.below(2) as u8).collect();
             cases.push(CliCase::Encode { alist: m.to_alist(), punct: None, input: input.clone(), fifo_chunks: None });
+            cases.push(CliCase::EncodeSim { alist: m.to_alist(), punct: if len % 2 == 0 { None } else { Some("1,1,0".into()) }, input: input.clone(), seed: g.next() });
             cases.push(CliCase::Encode { alist: m.to_alist(), punct: Some("1,1,0".into()), input, fifo_chunks: if len % 3 == 0 { Some(vec![1, 3, 2]) } else { None } });
         }
     }
